@@ -45,5 +45,6 @@ RULES = [
     ("C08.destroy2", lambda c, r: __import__("sa.rules.lfht2", fromlist=["x"]).rule_destroy2(c, r, "C08.destroy2")),
     ("C08.explicit_resize", lambda c, r: __import__("sa.rules.lfht2", fromlist=["x"]).rule_explicit_resize(c, r, "C08.explicit_resize")),
     ("C08.count_approx", lambda c, r: __import__("sa.rules.lfht2", fromlist=["x"]).rule_count_approx(c, r, "C08.count_approx")),
+    ("C08.mmcases", lambda c, r: __import__("sa.rules.lfht2", fromlist=["x"]).rule_mm_cases(c, r, "C08.mmcases")),
 ]
 FLOORS = {}
